@@ -169,7 +169,7 @@ impl World {
 
 impl InterpDriver {
     fn operand(rng: &mut Rng) -> String {
-        let k = rng.below(26);
+        let k = rng.below(27);
         let b: Vec<u8> = match k {
             0 => vec![],
             1 => vec![0x80],
@@ -205,6 +205,12 @@ impl InterpDriver {
             22 => rng.bytes(32),
             23 => vec![0x00, 0x10], // 4096
             24 => vec![0x00, 0x00, 0x01], // 65536
+            25 => match rng.below(4) {
+                0 => vec![0x00, 0x00, 0x00, 0x80, 0x80], // -2^31 (only representable in 5 bytes)
+                1 => vec![0x00, 0x00, 0x00, 0x80, 0x00], // +2^31
+                2 => vec![0x01, 0x00, 0x00, 0x80, 0x80], // -2^31-1
+                _ => vec![0x00, 0x00, 0x00, 0x80],       // negative zero, 4 bytes
+            },
             _ => vec![rng.range(2, 16) as u8],
         };
         hx(&b)
@@ -212,7 +218,7 @@ impl InterpDriver {
 
     /// a script number of at most 4 bytes (what the arithmetic opcodes accept)
     fn num_bit(rng: &mut Rng) -> Value {
-        let b: Vec<u8> = match rng.below(12) {
+        let b: Vec<u8> = match rng.below(14) {
             0 => vec![],
             1 => vec![0x01],
             2 => vec![0x81],
@@ -224,6 +230,8 @@ impl InterpDriver {
             8 => vec![0x00, 0x01],
             9 => vec![rng.below(8) as u8 + 1],
             10 => vec![rng.below(127) as u8 + 1, rng.below(127) as u8 + 1],
+            11 => vec![0x00, 0x00, 0x00, 0x80, 0x80], // -2^31: a bigint operand the 4-byte number range cannot hold
+            12 => vec![0x00, 0x00, 0x00, 0x80, 0x00], // +2^31
             _ => vec![rng.range(2, 40) as u8],
         };
         if b.is_empty() {
@@ -353,6 +361,21 @@ impl InterpDriver {
                         out.push(if rng.chance(5, 6) { json!(80 + nkeys.max(1)) } else { Self::push_bit(rng) });
                         out.push(json!(*rng.pick(&[174u64, 174, 175])));
                     }
+                }
+                5 if with_tx && rng.chance(1, 3) => {
+                    // wide CHECKMULTISIG: many keys / signatures, usually failing somewhere after most operands were popped
+                    let nkeys = *rng.pick(&[4u64, 16, 20, 21, 40, 42]);
+                    let nsig = *rng.pick(&[0u64, 1, 1, 2, 20]).min(&nkeys);
+                    out.push(json!(0));
+                    for j in 0..nsig {
+                        out.push(if rng.chance(1, 2) { json!({"sig": *rng.pick(&["valid", "garbage", "empty", "badflag"]), "key": j % 3, "flag": 0x41}) } else { Self::push_bit(rng) });
+                    }
+                    out.push(json!({"p": hx(&[nsig as u8])}));
+                    for j in 0..nkeys {
+                        out.push(if rng.chance(1, 3) { Self::pubkey_bit(rng) } else { json!({"sig": "pubkey", "key": j % 3, "compressed": true}) });
+                    }
+                    out.push(json!({"p": hx(&[nkeys as u8])}));
+                    out.push(json!(*rng.pick(&[174u64, 175])));
                 }
                 5 => {
                     // pseudo / template / reserved opcodes and bare control codes
